@@ -30,6 +30,7 @@ func (ex *Exec) step(instr ssa.Instruction) {
 			p := PtrV{Kind: pObj, Ref: r, Root: t}
 			ex.setReg(x, p)
 			ex.store(p, ex.zeroValue(t))
+			ex.fireAnchors("alloc", x.Comment, nil, nil, x.Pos())
 		} else {
 			k := cellKey{x, ex.fr.id}
 			ex.st.cells[k] = ex.zeroValue(t)
@@ -118,7 +119,9 @@ func (ex *Exec) step(instr ssa.Instruction) {
 		for _, b := range x.Bindings {
 			free = append(free, ex.val(b))
 		}
-		ex.setReg(x, FuncV{Fn: fn, Free: free, Ref: ex.newRef()})
+		fvv := FuncV{Fn: fn, Free: free, Ref: ex.newRef()}
+		ex.setReg(x, fvv)
+		ex.checkObjInv(fvv, x.Pos())
 	case *ssa.Lookup:
 		ex.setReg(x, ex.lookup(x))
 	case *ssa.MapUpdate:
@@ -746,6 +749,16 @@ func (ex *Exec) sliceOp(x *ssa.Slice) Value {
 			g := And(Le(I(0), lo), Le(lo, hi), Le(hi, n))
 			ex.vc.Oblige("idx", txt, ex.st.pc, g, ex.posString(pos))
 			ex.vc.Assume(ex.st.pc, g, "")
+			if lit, isLit := ex.strNames[b.T.S]; isLit {
+				if a, ok1 := litInt(lo); ok1 {
+					if z, ok2 := litInt(hi); ok2 && a >= 0 && z <= int64(len(lit)) && a <= z {
+						return Sc{ex.strConst(lit[a:z])}
+					}
+					if !has(x.High) && a >= 0 && a <= int64(len(lit)) {
+						return Sc{ex.strConst(lit[a:])}
+					}
+				}
+			}
 			r := ex.vc.Define("sub", app(SStr, "ssub", b.T, lo, hi))
 			ex.vc.Assume(ex.st.pc, Eq(app(SInt, "slen", r), Sub(hi, lo)), "")
 			return Sc{r}
